@@ -7,6 +7,8 @@
 (* Values:  [t |-> "int", w, s, b]  machine integer, b little-endian bytes  *)
 (*          [t |-> "bool", v]   [t |-> "void"]                              *)
 (*          [t |-> "arr", es]   [t |-> "rec", ns, vs]  (by value)           *)
+(*          [t |-> "sum", k, p]  optional / enum value: current variant k   *)
+(*          (optional: 1 = payload, 2 = nil) and its payload p              *)
 (* State:   [env |-> stack of scopes (innermost last; a scope is a pair of  *)
 (*           sequences names / values), out |-> printed byte strings,       *)
 (*           fuel |-> remaining loop iterations and calls]                  *)
@@ -147,6 +149,20 @@ Eval(P, e, st) ==
             LET c == Eval(P, e.c, st) IN
             IF c.sig # "norm" THEN c ELSE IF c.v.v THEN Eval(P, e.t, c.st) ELSE Eval(P, e.f, c.st)
       [] e.e = "blk" -> Block(P, e, st)
+      \* sum types: {e: variant, k, x} builds variant k with payload x ({e: none} for none);
+      \* optionals use k = 1 (payload) and k = 2 (nil)
+      [] e.e = "variant" -> LET r == Eval(P, e.x, st) IN
+                            IF r.sig # "norm" THEN r ELSE Norm([t |-> "sum", k |-> e.k, p |-> r.v], r.st)
+      [] e.e = "isvar" -> LET r == Eval(P, e.x, st) IN
+                          IF r.sig # "norm" THEN r ELSE Norm(BoolV(r.v.k = e.k), r.st)
+      [] e.e = "unwrap" -> LET r == Eval(P, e.x, st) IN
+                           IF r.sig # "norm" THEN r
+                           ELSE IF r.v.k # e.k THEN Fault(r.st, "unwrap") ELSE Norm(r.v.p, r.st)
+      \* x.try on an optional: the payload, or leave the function with nil
+      [] e.e = "try" -> LET r == Eval(P, e.x, st) IN
+                        IF r.sig # "norm" THEN r
+                        ELSE IF r.v.k = 1 THEN Norm(r.v.p, r.st)
+                        ELSE R([t |-> "sum", k |-> 2, p |-> Void], r.st, "ret", "")
 
 (* run the deferred statements ds (in registration order) last first; their own signals are not
    propagated (the generator only defers prints and assignments) *)
@@ -245,6 +261,18 @@ Exec(P, s, st) ==
             IF c.sig # "norm" THEN c
             ELSE LET r == IF c.v.v THEN Eval(P, s.t, c.st) ELSE Eval(P, s.f, c.st) IN
                  IF r.sig = "norm" THEN Norm(Void, r.st) ELSE r
+      \* switch: exactly the arm of the current variant runs with the argument bound to the payload
+      \* (the whole value in the default arm)
+      [] s.s = "switch" ->
+            LET v == Eval(P, s.x, st) IN
+            IF v.sig # "norm" THEN v
+            ELSE LET hits == {j \in 1..Len(s.arms) : s.arms[j].k = v.v.k}
+                     body == IF hits = {} THEN s.dflt ELSE s.arms[CHOOSE j \in hits : TRUE].body
+                     arg == IF hits = {} THEN v.v ELSE v.v.p
+                     inner == [v.st EXCEPT !.env = Append(v.st.env, [ns |-> <<s.bind>>, vs |-> <<arg>>])]
+                     r == Block(P, body, inner)
+                     out == [r.st EXCEPT !.env = SubSeq(r.st.env, 1, Len(v.st.env))]
+                 IN IF r.sig = "norm" THEN Norm(Void, out) ELSE R(r.v, out, r.sig, r.lab)
       [] s.s = "break" -> LET r == Eval(P, s.x, st) IN IF r.sig # "norm" THEN r ELSE R(r.v, r.st, "brk", s.label)
       [] s.s = "continue" -> R(Void, st, "cont", s.label)
       [] s.s = "return" -> LET r == Eval(P, s.x, st) IN IF r.sig # "norm" THEN r ELSE R(r.v, r.st, "ret", "")
@@ -256,7 +284,7 @@ Exec(P, s, st) ==
 Run(P, fuel) ==
     LET r == Call(P, "main", <<>>, [env |-> <<>>, out |-> <<>>, fuel |-> fuel]) IN
     [out |-> r.st.out,
-     end |-> IF r.sig = "fault" THEN r.v.why ELSE IF r.sig = "nofuel" THEN "nofuel" ELSE "exit",
+     end |-> IF r.sig = "fault" THEN (IF r.v.why = "unwrap" THEN "unwrap" ELSE r.v.why) ELSE IF r.sig = "nofuel" THEN "nofuel" ELSE "exit",
      status |-> IF r.sig = "fault" THEN 1 ELSE IF r.sig = "nofuel" THEN -1
                 ELSE IF r.v.t = "int" THEN r.v.b[1] ELSE 0]
 ================================================================================
